@@ -19,7 +19,7 @@ MANIFEST = {
           'walked: nothing may exist outside the data directory (realpath).',
   'note': 'whisper and ceres are absent: minimal stand-in modules (mc/doubles/standins) let carbon.database define '
           'its classes; CeresTree.getFilesystemPath is reproduced from ceres. Strings outside the alphabet are not '
-          'covered. Injectivity is also checked on structured long names (segments of 64..5000 characters around NAME_MAX/PATH_MAX). The data directory goes through the real start-up (LOCAL_DATA_DIR with ~ etc.); a thrx harness asks one database object for paths from two threads.',
+          'covered. Injectivity is also checked on structured long names (segments of 64..5000 characters around NAME_MAX/PATH_MAX). The data directory goes through the real start-up (LOCAL_DATA_DIR with ~ etc.); a thrx harness asks one database object for paths from two threads. Mutating calls that would leave the scratch tree are refused by the recording audit hook (and reported).',
 }
 
 ALPHABET = ['a', 'b', '.', '/', ';', '=', '~', '_', 'é', ' ']
